@@ -9,7 +9,7 @@ Grammar: `case <id> exec <via>` · `a <cid> <act>` (append an act to the script 
 is printed as events `<cid>.<pc>@<depth>`) · `end`.
 Acts: `wake:<d|a|r|x|p>:<ids>` `detach:<d|a|r|x|p>:<id>` `gather:<d|a>:<ids>` `park` `parkn` `parkp` `wakep:<id>`
 `pause` `swap` `start:<id>` `startc:<id>` `spawn:<id>` `call:<id>` `join:<id>` `hop` `hopc` `end` `enter` `leave`
-`leavex`.  Work handed to other threads (`{w`/`{p` ... `}<active>` in the event list) is run whenever ordinary code is
+`leavex` `gnext:<id>` `gyield`.  Work handed to other threads (`{w`/`{p` ... `}<active>` in the event list) is run whenever ordinary code is
 outside every block, as the harness does.  Mode `x` (suspend point destroyed by stack
 unwinding) and `leavex` (the callback of `install_queue_and_call` throws) are `Mode.discard` / `Act.leave` in the
 model: `~suspend_point` and `trailer::~trailer` do the same work whether or not an exception is in flight.
@@ -42,6 +42,8 @@ def parseAct (tok : String) : Option Act :=
   | ["swap"] => some Act.pause
   | ["start", d] => d.toNat?.map (Act.start · true)
   | ["call", d] => d.toNat?.map Act.call
+  | ["gnext", d] => d.toNat?.map Act.gnext     -- bool(gen.next()) / gen() / gen.next().subscribe(a), by id % 3 in the harness
+  | ["gyield"] => some Act.gyield
   | ["join", d] => d.toNat?.map Act.join
   | ["end"] => some Act.fin
   | ["enter"] => some Act.enter
@@ -100,6 +102,7 @@ def countSusp (p : Prog) (s : State) : Nat :=
     match s.st c with
     | St.parked => n + 1
     | St.pparked => n + 1
+    | St.yielded => n + 1
     | St.waiting _ => n + 1
     | _ => n) 0
 
